@@ -98,6 +98,7 @@ FIXED += [
     ("C08", "44fdb2c", "ORDER BY over group rows chose numbers or text by the CONTENTS of the column: a text key whose values all look like numbers sorted numerically (unlike the ungrouped query), a numeric key with one empty cell sorted as text (second audit; C08's oracle had accepted both orders for all-numeric text keys - now text keys are text)", []),
     ("C06", "6d1d8a5", "`select contains('a') from .` printed one row without a limit and N rows with `limit N`: functions that read the entry without naming a column left the select list 'constant' (second audit; C06's second select lists now include such functions)", []),
     ("C01", "33fe5e4", "the repair b05f7a6 paired st_dev (lstat) with d_ino (readdir): for a mount point these belong to different file systems, so a directory inside the mount whose inode number equals that of the covered directory was listed but not entered (second audit; C01's mount cases now put the mount points on a fresh tmpfs so that the numbers coincide)", []),
+    ("C07", "5b2f11f", "MIN / MAX skipped every value of 2^63 or more (`max(size * size)` for a 4 GB file): the result was smaller than the average, or 0 (second audit; C07's inner expressions now include size * size)", []),
     ("C10", "9b6a0a7", "day('2020-0\u0661-01'): the date pattern matched non-ASCII digits and the integer parse of the capture was unwrapped (found by the eval_total fuzz target after 2e7 executions)", ["date-non-ascii-digit"]),
     ("C10", "69a0b27", "`name from './[a' depth 1 rx`: a malformed pattern in a regexp search root panicked (unwrap of Regex::new)", ["regexp-root-malformed"]),
 ]
